@@ -25,10 +25,12 @@ import time
 VERIF = os.path.dirname(os.path.dirname(os.path.abspath(__file__)))
 COQ = os.path.join(VERIF, 'coq')
 GEN = os.path.join(COQ, 'Gen')
-EVID = os.path.join(VERIF, 'evidence')
-REPLAY = os.path.join(VERIF, 'replay')
+# mutant runs (harness/muttest.sh) redirect these so that committed evidence only ever comes from /repo itself
+EVID = os.environ.get('VERIF_EVID_DIR') or os.path.join(VERIF, 'evidence')
+REPLAY = os.environ.get('VERIF_REPLAY_DIR') or os.path.join(VERIF, 'replay')
 REPO = os.environ.get('TENEVA_REPO', '/repo')
 NCPU = int(os.environ.get('VERIF_JOBS', '16'))
+FILE_TIMEOUT = int(os.environ.get('VERIF_FILE_TIMEOUT', '900'))
 
 # axioms of the standard library that may appear under a property theorem (DESIGN.md section 8)
 ALLOWED_AXIOMS = {
@@ -110,7 +112,9 @@ def build_coq(timeout=3000, target=None):
                 return False, r.stdout + r.stderr
         t = time.time()
         try:
-            cmd = ['timeout', str(timeout), 'make', f'-j{NCPU}'] + ([target] if target else ['-k'])
+            # every coqc runs under its own time limit, so one looping tactic cannot stall the whole build
+            cmd = ['timeout', str(timeout), 'make', f'-j{NCPU}', f'COQC=timeout {FILE_TIMEOUT} coqc'] + \
+                  (target.split() if target else ['-k'])
             r = subprocess.run(cmd, cwd=COQ, capture_output=True, text=True)
         except Exception as e:  # pragma: no cover
             return False, repr(e)
